@@ -1022,6 +1022,9 @@ REALNVP_OPTS = [
     {"use_volume_preserving": True},
     {"mask": [1, -1], "linear_transform": None},
     {"linear_transform": "svd"},
+    # resampled (LARS) base distribution: its normalisation constant is re-estimated by FlowModel.finalise() after the best
+    # weights have been restored; more epochs so that the acceptance network learns something (seeded change C08-eA)
+    {"distribution": "lars", "_epochs": 30},
 ]
 REALNVP_MORE = [
     {"mask": [[1, -1], [-1, 1]], "linear_transform": None, "_blocks": 2},
@@ -1065,17 +1068,18 @@ def flow_cases(ctx):
                     nb = opts.get("_blocks", ctx.rng.choice([1, 2, 3]))
                     cases.append(dict(ftype=ftype, dtype=dname, opts=o, dims=dims, n_blocks=nb, n_layers=ctx.rng.choice([1, 2]),
                                       n_neurons=ctx.rng.choice([4, 8]), seed=ctx.rng.getrandbits(30),
-                                      n=ctx.scale(200, 500), ntie=ctx.scale(25, 60), grid=ctx.scale(40, 64), epochs=ctx.scale(6, 20)))
+                                      n=ctx.scale(200, 500), ntie=ctx.scale(25, 60), grid=ctx.scale(40, 64),
+                                      epochs=opts.get("_epochs", ctx.scale(6, 20))))
     return cases
 
 
 def proposal_cases(ctx):
     cases = []
-    priors = ["truncated_gaussian", "uniform_nball", "gaussian", "flow"] + ([] if ctx.quick else ["uniform", "uniform_nsphere"])
+    priors = ["truncated_gaussian", "uniform_nball", "gaussian", "flow", "uniform"] + ([] if ctx.quick else ["uniform_nsphere"])
     reparams = [None, "zscore", "logit", "scale", "null", "mixed"]
     for lat in priors:
         for rep in reparams:
-            if ctx.quick and ctx.rng.random() < 0.45 and not (lat == "uniform_nball" and rep in (None, "logit")):
+            if ctx.quick and ctx.rng.random() < 0.45 and not (lat in ("uniform_nball", "uniform") and rep in (None, "logit")):
                 continue
             for dname in (["float32", "float64"] if not ctx.quick else [ctx.rng.choice(["float32", "float64"])]):
                 ftype = ctx.rng.choice(["realnvp", "realnvp", "maf", "nsf"])
